@@ -1074,6 +1074,61 @@ func earlyProbe(T, lead time.Duration, trials int) (early int, least time.Durati
 	return
 }
 
+// longLived drives one Reassembler through n events (in groups of 8 and 7 that are evicted by one call each), then
+// closes it. Every event must come out exactly once, alone, in ascending consecutive order, and no loss may be
+// reported. Returns the first deviation ("" = none).
+type longStream struct {
+	next uint32
+	bad  string
+}
+
+func (s *longStream) ReassemblyComplete(msgs []*auparse.AuditMessage) {
+	if s.bad != "" {
+		return
+	}
+	if len(msgs) != 1 || msgs[0].Sequence != s.next {
+		got := uint32(0)
+		if len(msgs) > 0 {
+			got = msgs[0].Sequence
+		}
+		s.bad = fmt.Sprintf("after %d events had been delivered in order, the next callback carried %d records, the first with sequence %d (expected event %d alone)", s.next-1, len(msgs), got, s.next)
+		return
+	}
+	s.next++
+}
+func (s *longStream) EventsLost(n int) {
+	if s.bad == "" {
+		s.bad = fmt.Sprintf("EventsLost(%d) on a stream without gaps, after %d events", n, s.next-1)
+	}
+}
+
+func longLived(n int) string {
+	st := &longStream{next: 1}
+	r, err := libaudit.NewReassembler(32, time.Hour, st)
+	if err != nil {
+		return ""
+	}
+	// groups of 8 and 7 events in turn: the first records of a group arrive in order, then their EOEs in reverse
+	// order, so that the last of them (the EOE of the oldest buffered event) evicts the whole group in one call
+	seq := uint32(0)
+	for g := 0; int(seq)+8 <= n && st.bad == ""; g++ {
+		size := uint32(8 - g%2)
+		lo := seq + 1
+		for k := uint32(0); k < size; k++ {
+			seq++
+			r.PushMessage(&auparse.AuditMessage{RecordType: tSYSCALL, Sequence: seq})
+		}
+		for s := seq; s >= lo; s-- {
+			r.PushMessage(&auparse.AuditMessage{RecordType: tEOE, Sequence: s})
+		}
+	}
+	r.Close()
+	if st.bad == "" && st.next-1 != seq {
+		return fmt.Sprintf("%d events pushed, %d delivered by the time Close had returned", seq, st.next-1)
+	}
+	return st.bad
+}
+
 // wideWindow fills a window of max with n events that never complete (timeout 1h) and reports at which event the first
 // delivery before Close happened (0 = none).
 func wideWindow(max, n int) (evictedAt int) {
@@ -1294,6 +1349,10 @@ func reasmFamily(ctx *Ctx) error {
 				Events int    `json:"events"`
 			} `json:"input"`
 		}
+		if json.Unmarshal(b, &rw) == nil && rw.Input.Kind == "long-lived" {
+			fmt.Printf("%d consecutive events through one Reassembler: %q (empty = every event delivered once, alone, in order, no loss reported)\n", rw.Input.Events, longLived(rw.Input.Events))
+			return nil
+		}
 		if json.Unmarshal(b, &rw) == nil && rw.Input.Kind == "wide-window" {
 			at := wideWindow(rw.Input.Max, rw.Input.Events)
 			fmt.Printf("maxInFlight %d, %d events pushed, none complete, timeout 1h: first delivery before Close when event number %d arrived (0 = none)\n", rw.Input.Max, rw.Input.Events, at)
@@ -1411,6 +1470,22 @@ func reasmFamily(ctx *Ctx) error {
 			}
 		}
 	}
+	if ctx.Prop == "C01" || ctx.Prop == "C02" {
+		// one object, a long life: more than 2^20 events through a single Reassembler (a daemon's Reassembler lives for
+		// months); whatever the library does every so many removals happens here
+		n := 1<<20 + 1<<17
+		if ctx.Thorough() {
+			n = 1<<24 + 1<<20
+		}
+		in := map[string]interface{}{"kind": "long-lived", "events": n}
+		guardEnter(in)
+		bad := longLived(n)
+		guardLeave()
+		res.Hist("long-lived object")
+		if bad != "" {
+			res.Violate(common.Violation{Kind: "monitor", Input: in, Clause: ctx.Prop + ": on one Reassembler fed consecutive events (seven or eight buffered, all evicted by one call): " + bad})
+		}
+	}
 	if ctx.Prop == "C10" && ctx.Thorough() {
 		// a window larger than any size ladder reaches: 2^17+2 events buffered in a window of 200000 (filling it costs
 		// the library about half a minute: every new event re-sorts the list). Nothing is complete, no timeout has
@@ -1467,6 +1542,21 @@ func reasmFamily(ctx *Ctx) error {
 				report(runReasmCase(ctx, m, c, idx), c)
 				idx++
 			}
+		}
+	}
+	if ctx.Prop == "C10" || ctx.Prop == "C19" {
+		// a stale backlog with a complete event right behind it: hundreds of events time out together, the call that
+		// finds them so must deliver them all and the complete event behind them (wide window, real timeout)
+		for _, n := range []int{10, 255, 256, 257, 300, 1030} {
+			c := RCase{Real: true, InWindow: true, Base: 1000, Max: 1500, TimeoutNs: int64(40 * time.Millisecond)}
+			for i := 0; i < n; i++ {
+				c.Ops = append(c.Ops, ROp{K: "push", ID: i + 1, Seq: 1000 + uint32(i), Typ: tSYSCALL})
+			}
+			c.Ops = append(c.Ops, ROp{K: "push", ID: n + 1, Seq: 1000 + uint32(n), Typ: 1112},
+				ROp{K: "sleep", Ms: 400}, ROp{K: "push", ID: n + 2, Seq: 1000 + uint32(n) + 1, Typ: tSYSCALL}, ROp{K: "close"})
+			res.Hist("stale backlog, complete event behind")
+			report(runReasmCase(ctx, m, c, idx), c)
+			idx++
 		}
 	}
 	if ctx.Prop == "C02" {
